@@ -9,6 +9,10 @@ CONSTANTS
   RxDeltas <- RxBack
   Delays <- DelaysFull
   CtrlDelays = {5}
+  Sec = 1
+  TsGrid = 1
+  TickUs = 1000000
+  BaseTicks = 1640995200
   IndexMode = "zero"
   Record = FALSE
 INVARIANTS ThrAtLeastD Permutation OrderedUnderBound HeldUntilOld
